@@ -16,7 +16,7 @@ open Aave
 /-- ledger steps without the no-dust hypothesis; withdrawals in a coherent state of a bar with positive indices -/
 def C10SupLedgerStepD (tok : String) (env : Env) (s : St) (op : Op) : Prop :=
   ¬ TouchesSupply tok op ∨ (op = .update ∧ C10QuietUpdate env s) ∨ (∃ a c, op = .supply tok a c) ∨
-  (∃ a?, op = .withdraw tok a? ∧ Good aaveExact env s ∧ AavePosIdx env)
+  (∃ a?, op = .withdraw tok a? ∧ Good aaveExact env s ∧ AavePosIdx env) ∨ (∃ c, op = .changeCollateral tok c)
 
 def C10SupLedgerRunD (tok : String) : St → List (Env × Op) → Prop
   | _, [] => True
@@ -52,12 +52,14 @@ theorem aave_supBase_step_dust {tok : String} {env : Env} {s : St} {op : Op} (h 
       c10SupBase tok (step aaveExact env s op).2 ≤ c10SupBase tok s + c10Ledger (c10SupEvent tok env s op) 1 ∧
       c10SupBase tok s + c10Ledger (c10SupEvent tok env s op) 1 - c10SupBase tok (step aaveExact env s op).2
         ≤ Gen.aaveMinTokenValue * (c10Withdrawals (c10SupEvent tok env s op) : Rat))
-  rcases h with hn | hq | hsup | ⟨a?, rfl, hs, hI⟩
+  rcases h with hn | hq | hsup | ⟨a?, rfl, hs, hI⟩ | hcc
+  rotate_right
+  · exact exact (Or.inr (Or.inr (Or.inr (Or.inr hcc))))
   · exact exact (Or.inl hn)
   · exact exact (Or.inr (Or.inl hq))
   · exact exact (Or.inr (Or.inr (Or.inl hsup)))
   · by_cases hsnap : C10NoDustSnap tok env s a?
-    · exact exact (Or.inr (Or.inr (Or.inr ⟨a?, rfl, hs, hsnap⟩)))
+    · exact exact (Or.inr (Or.inr (Or.inr (Or.inl ⟨a?, rfl, hs, hsnap⟩))))
     · -- the dust rule fires: the call is accepted and the remainder is in (0, MIN)
       unfold C10NoDustSnap at hsnap
       push Not at hsnap
